@@ -1,6 +1,7 @@
 package mon
 
 import (
+	"sort"
 	"encoding/json"
 	"fmt"
 	"math"
@@ -217,10 +218,11 @@ func jsonInputs(t leafTarget, rng *rand.Rand, nrand int) []c18Input {
 		wrong("string")
 	case "enumeration", "identityref":
 		names := lib.MemberNames(t.f.YType)
-		for n := range names {
+		for _, n := range sortedNames(names) {
 			in = append(in, c18Input{class: "canonical", verdict: "accept", json: raw(strconv.Quote(n)), want: "enum:" + n})
-			in = append(in, c18Input{class: "unknown-name:case-changed", verdict: "reject", json: raw(strconv.Quote(strings.ToLower(n) + "x"))})
-			break
+			for _, m := range enumNameMutants(n, names) {
+				in = append(in, c18Input{class: "unknown-name:" + m.class, verdict: "reject", json: raw(strconv.Quote(m.s))})
+			}
 		}
 		in = append(in, c18Input{class: "unknown-name", verdict: "reject", json: raw(`"NO_SUCH_NAME"`)}, c18Input{class: "unknown-name:empty", verdict: "reject", json: raw(`""`)},
 			c18Input{class: "wrong-kind:number", verdict: "reject", json: raw("1")})
@@ -525,9 +527,12 @@ func tvInputs(t leafTarget, rng *rand.Rand, nrand int) []tvInput {
 		in = append(in, tvInput{class: "bytes_val", verdict: "accept", tv: byv([]byte{1, 2}), want: "bin:0102"},
 			tvInput{class: "string_val-not-base64", verdict: "reject", tv: sv("!!!")}, tvInput{class: "int_val", verdict: "reject", tv: iv(1)}, tvInput{class: "bool_val", verdict: "reject", tv: bv(true)})
 	case "enumeration", "identityref":
-		for n := range lib.MemberNames(t.f.YType) {
+		names := lib.MemberNames(t.f.YType)
+		for _, n := range sortedNames(names) {
 			in = append(in, tvInput{class: "string_val-name", verdict: "accept", tv: sv(n), want: "enum:" + n})
-			break
+			for _, m := range enumNameMutants(n, names) {
+				in = append(in, tvInput{class: "string_val-unknown-name:" + m.class, verdict: "reject", tv: sv(m.s)})
+			}
 		}
 		in = append(in, tvInput{class: "string_val-unknown-name", verdict: "reject", tv: sv("NO_SUCH_NAME")}, tvInput{class: "string_val-empty", verdict: "reject", tv: sv("")},
 			tvInput{class: "int_val", verdict: "reject", tv: iv(1)}, tvInput{class: "uint_val", verdict: "reject", tv: uv(1)}, tvInput{class: "bool_val", verdict: "reject", tv: bv(true)})
@@ -538,6 +543,40 @@ func tvInputs(t leafTarget, rng *rand.Rand, nrand int) []tvInput {
 }
 
 var _ = reflect.TypeOf
+
+func sortedNames(m map[string]bool) []string {
+	out := make([]string, 0, len(m))
+	for n := range m {
+		out = append(out, n)
+	}
+	sort.Strings(out)
+	return out
+}
+
+type nameMutant struct{ class, s string }
+
+// enumNameMutants derives strings from a defined name that are not names of
+// the type: they must be rejected, never coerced to the name they resemble.
+func enumNameMutants(n string, names map[string]bool) []nameMutant {
+	cands := []nameMutant{
+		{"case-changed", strings.ToLower(n) + "x"},
+		{"trailing-space", n + " "},
+		{"leading-space", " " + n},
+		{"trailing-colon", n + ":"},
+		{"two-prefixes", "a:b:" + n},
+		{"three-prefixes", "urn:x:y:" + n},
+		{"doubled", n + n},
+		{"truncated", n[:len(n)-1]},
+		{"suffix-after-colon", n + ":x"},
+	}
+	var out []nameMutant
+	for _, c := range cands {
+		if c.s != "" && !names[c.s] {
+			out = append(out, c)
+		}
+	}
+	return out
+}
 
 // kindFamily groups YANG kinds that share one decoding path, so that one root
 // cause gets one signature.
